@@ -2,11 +2,11 @@
 import ast
 
 from sa.model import (FUNC_TYPES, ancestors, body_walk, call_attr, call_name, calls_in, dotted,
-                      enclosing_func, enclosing_stmt, src, walk_local)
+                      enclosing_func, enclosing_stmt, src, walk_local, names_in, kwarg, const_str)
 from sa.cfg import CFG, CFGUnsupported
 
 __all__ = ['ast', 'CFG', 'CFGUnsupported', 'dotted', 'src', 'calls_in', 'call_attr', 'call_name', 'body_walk',
-           'walk_local', 'ancestors', 'enclosing_func', 'enclosing_stmt', 'FUNC_TYPES']
+           'walk_local', 'ancestors', 'enclosing_func', 'enclosing_stmt', 'FUNC_TYPES', 'names_in', 'kwarg', 'const_str']
 
 
 # ----------------------------------------------------------------------------- locks
@@ -750,6 +750,89 @@ def resolved(expr, funcnode, depth=4):
                     return Sub(self.d - 1).visit(_clone_ast(las[0][0]))
             return node
     return Sub(depth).visit(_clone_ast(expr))
+
+
+def received_bytes_lost(cfg, funcnode, sink, is_source):
+    """conservation of received data: a local that holds bytes taken from a source call (`data = self.recv()`) - or a local
+    buffer such bytes were appended to - must be handed on before the function ends: appended / assigned to the persistent
+    buffer `sink` (an attribute expression given as source text), moved into another local (which then carries the duty),
+    returned, or shown empty by a test.  -> [(exit statement ast | None, sorted names still holding data)] for every way out
+    of the function (return, raise, falling off the end) that is reached with such a local.  Exceptions raised by calls are
+    not followed (a failing recv ends the connection), explicit raise statements are."""
+    def loads(e):
+        return {n.id for n in ast.walk(e) if isinstance(n, ast.Name) and isinstance(n.ctx, ast.Load)} if e is not None else set()
+
+    def targets(st):
+        ts = st.targets if isinstance(st, ast.Assign) else [st.target]
+        names, to_sink = set(), False
+        for t in ts:
+            for x in ast.walk(t):
+                if isinstance(x, ast.Name) and isinstance(x.ctx, ast.Store):
+                    names.add(x.id)
+                if isinstance(x, ast.Attribute) and src(x) == sink:
+                    to_sink = True
+        return names, to_sink
+
+    def transfer(node, state):
+        st = node.ast
+        if node.kind == 'test' or st is None:
+            return state
+        state = set(state)
+        if isinstance(st, (ast.Assign, ast.AugAssign, ast.AnnAssign)) and st.value is not None:
+            used = loads(st.value) & state
+            names, to_sink = targets(st)
+            if isinstance(st.value, ast.Call) and is_source(st.value):
+                state -= used
+                state |= names
+            elif used:
+                state -= used
+                if not to_sink:
+                    state |= names
+                elif isinstance(st, ast.Assign):
+                    state |= {n for n in names}      # `line, self._rxbuffer = parts`: line carries the other part
+            elif isinstance(st, ast.Assign):
+                state -= names                       # re-bound to something else
+        elif isinstance(st, ast.Return):
+            state -= loads(st.value)
+        elif isinstance(st, ast.Expr):
+            # handed to a call (`self._store(data)`) - the callee takes the duty
+            state -= loads(st.value)
+        return frozenset(state)
+
+    def falsy_on(test, label):
+        out = set()
+        for a, tv in facts_on_side(test, label == 'T'):
+            if isinstance(a, ast.Name) and not tv:
+                out.add(a.id)
+            if isinstance(a, ast.Compare) and len(a.ops) == 1 and isinstance(a.left, ast.Name) and isinstance(a.comparators[0], ast.Constant) \
+                    and a.comparators[0].value in (b'', '', None) and ((isinstance(a.ops[0], (ast.Eq, ast.Is)) and tv) or (isinstance(a.ops[0], (ast.NotEq, ast.IsNot)) and not tv)):
+                out.add(a.left.id)
+        return out
+
+    ins = {cfg.entry: {frozenset()}}
+    work = [(cfg.entry, frozenset())]
+    seen = set()
+    lost = {}
+    while work:
+        nid, state = work.pop()
+        if (nid, state) in seen:
+            continue
+        seen.add((nid, state))
+        node = cfg.nodes[nid]
+        out = transfer(node, state)
+        for b, lab in cfg.succ[nid]:
+            if lab == 'exc' and not isinstance(node.ast, ast.Raise):
+                continue
+            o = out
+            if node.kind == 'test' and lab in ('T', 'F') and isinstance(node.ast, ast.expr):
+                o = frozenset(set(out) - falsy_on(node.ast, lab))
+            if b == cfg.exit:
+                if o:
+                    key = id(node.ast)
+                    lost.setdefault(key, (node.ast, set()))[1].update(o)
+                continue
+            work.append((b, o))
+    return [(a, sorted(names)) for a, names in lost.values()]
 
 
 # every public helper of this module is available through `from sa.lib import *`
